@@ -349,6 +349,20 @@ def mon_C08(run, cfg, ops):
                 out.append(viol("C08", "C08/tick-market-price" + ("" if pre["running"] else "-not-running"),
                                 "clock step: market price follows last trade / mid when running, else is carried unchanged",
                                 {"pre": pre["cur"], "post": post["cur"], "expected": want}, cfg, ops, st["i"]))
+        if kind == "jump" and res[0] == "expiries":
+            # an explicit clock jump carries the most recent recorded last-trade / mid / market price over
+            # (whatever their values: a trade at price 0.0 is a trade)
+            checks += 1
+            snap = run.snapshots[st["i"]][1] if st["i"] < len(run.snapshots) else None
+            hist = {"last": [pre["cur"]["last"]], "mid": [pre["cur"]["mid"]], "market": [pre["cur"]["market"]]}
+            if snap is not None:      # taken after the jump: every slot strictly before the new time
+                hist = {"market": list(snap[0]), "mid": list(snap[1]), "last": list(snap[2])}
+            for name in ("last", "mid"):
+                rec = [x for x in hist[name] if x is not None]
+                want = rec[-1] if rec else None
+                if not _eq(post["cur"][name], want):
+                    out.append(viol("C08", "C08/jump-carry-" + name, "the clock carries the most recent recorded %s price over" % name,
+                                    {"recorded": hist[name][-5:], "after_jump": post["cur"][name], "expected": want}, cfg, ops, st["i"]))
         if kind in ("run", "cmp"):
             checks += 1
             if post["cur"] != pre["cur"]:
